@@ -1,6 +1,760 @@
-//! C31 — not implemented yet.
-use mc_core::Ctx;
+//! C31 — the manifest compiler never crashes.
+//!
+//! Statement: compiling any text as a manifest of any kind returns either a manifest or an error, rendering that
+//! error as a human-readable diagnostic also succeeds; neither step panics, and the answer is the same every time.
+//!
+//! Bounded-exhaustive input enumeration. Every input text is compiled as all 4 manifest kinds through the public
+//! entry points `compile_any_manifest` (raw error) and `compile_any_manifest_with_pretty_error` (both diagnostic
+//! styles, each twice) under `catch_unwind`. Spaces:
+//!  (a) every token sequence of length <= N over a 34-token alphabet, joined by each of {SP, LF, CRLF, CR};
+//!  (b) every character string of length <= L over a 12-character alphabet;
+//!  (c) "error placement": error-producing snippets behind a preamble of 0..=12 lines, every line-ending style,
+//!      ASCII / non-ASCII preamble lines, error at start / middle of a line, trailing lines, final newline or not;
+//!  (d) every single-point character mutation of the 3 smallest example manifests, and an error token injected at
+//!      the start of every line of every example manifest under every line-ending style;
+//!  (e) deep nesting / very long inputs, run in a child process (re-exec of this binary) on a 2 MiB-stack thread, so
+//!      a stack overflow of the compiler kills the child, not the harness, and is reported as a violation.
+//!
+//! Oracle: no panic (key = `panic:<file>:<line>` of the panic site), raw and pretty entry points agree on Ok/Err,
+//! repeated calls give identical answers.
+use mc_core::{gen, par_for, par_range, Ctx, Level, Local};
+use radix_common::prelude::*;
+use radix_transactions::manifest::*;
+use serde_json::{json, Map, Value as J};
 
-pub fn run(_ctx: Ctx) -> ! {
-    mc_core::machinery_error("C31: not implemented")
+pub const CHILD_ENV: &str = "MC_TX_C31_CHILD";
+
+fn kind_of(i: usize) -> ManifestKind {
+    match i {
+        0 => ManifestKind::V1,
+        1 => ManifestKind::SystemV1,
+        2 => ManifestKind::V2,
+        _ => ManifestKind::SubintentV2,
+    }
+}
+const KIND_NAMES: [&str; 4] = ["V1", "SystemV1", "V2", "SubintentV2"];
+const STYLES: [CompileErrorDiagnosticsStyle; 2] = [CompileErrorDiagnosticsStyle::PlainText, CompileErrorDiagnosticsStyle::TextTerminalColors];
+const STYLE_NAMES: [&str; 2] = ["PlainText", "TextTerminalColors"];
+
+pub const KNOWN_BLOB: &[u8] = b"c31-blob";
+
+fn blobs() -> BlobProvider {
+    BlobProvider::new_with_blobs(vec![KNOWN_BLOB.to_vec()])
+}
+
+/// `…/diagnostic_snippets.rs:47` -> `diagnostic_snippets.rs:47` (stable across checkouts / scratch worktrees;
+/// for registry crates the crate directory is kept: `annotate-snippets-0.10.2/src/…`).
+fn panic_key() -> String {
+    let loc = mc_core::last_panic_location();
+    let short = if let Some(i) = loc.find("/registry/src/") {
+        let rest = &loc[i + "/registry/src/".len()..];
+        rest.splitn(2, '/').nth(1).unwrap_or(rest).to_string()
+    } else {
+        loc.rsplit('/').next().unwrap_or(&loc).to_string()
+    };
+    format!("panic:{short}")
+}
+
+
+/// Violations found by `probe` are funnelled here: per key only the *smallest* failing input (shortest text, then
+/// lexicographic, then kind/style) is kept, so that the reported reproducer is minimal and the same in every run;
+/// the number of failing (text, kind, entry point) triples per key is counted in `informational`.
+static MINIMAL: std::sync::Mutex<std::collections::BTreeMap<String, (usize, String, String, J)>> = std::sync::Mutex::new(std::collections::BTreeMap::new());
+
+fn record(l: &mut Local, key: String, what: String, case: J) {
+    let has_crlf = case.get("text").and_then(|t| t.as_str()).map(|t| t.contains("\r\n")).unwrap_or(false);
+    l.info(&format!("failing-call:{key}:{}", if has_crlf { "input-has-CRLF" } else { "input-without-CRLF" }));
+    let text = case.get("text").and_then(|t| t.as_str()).unwrap_or("").to_string();
+    let order = format!("{}|{}", case.get("kind").and_then(|t| t.as_str()).unwrap_or(""), case.get("style").and_then(|t| t.as_str()).unwrap_or(""));
+    let mut g = MINIMAL.lock().unwrap();
+    let cand = (text.chars().count(), format!("{text}\u{0}{order}"), what, case);
+    match g.get(&key) {
+        Some(cur) if (cur.0, &cur.1) <= (cand.0, &cand.1) => {}
+        _ => {
+            g.insert(key, cand);
+        }
+    }
+}
+
+fn flush_minimal(ctx: &Ctx) {
+    let g = std::mem::take(&mut *MINIMAL.lock().unwrap());
+    for (key, (_, _, what, case)) in g {
+        ctx.violation(key, what, case);
+    }
+}
+
+#[derive(Clone, Copy, PartialEq, Eq, Debug)]
+pub enum Stage {
+    Lexer,
+    Parser,
+    Generator,
+    Ok,
+    Panicked,
+}
+
+/// Compile one text as every kind, through every entry point. Returns the stage reached for kind V1..SubintentV2.
+pub fn probe(text: &str, space: &str, l: &mut Local, net: &NetworkDefinition) -> [Stage; 4] {
+    let mut out = [Stage::Panicked; 4];
+    for k in 0..4 {
+        l.eval();
+        let case = |style: &str| json!({"space": space, "text": text, "kind": KIND_NAMES[k], "style": style});
+        // raw
+        let raw = match mc_core::catch(|| compile_any_manifest(text, kind_of(k), net, blobs())) {
+            Ok(r) => r,
+            Err(p) => {
+                record(l, panic_key(), format!("compile_any_manifest panicked: {p}"), case("(raw)"));
+                continue;
+            }
+        };
+        out[k] = match &raw {
+            Ok(_) => Stage::Ok,
+            Err(CompileError::LexerError(_)) => Stage::Lexer,
+            Err(CompileError::ParserError(_)) => Stage::Parser,
+            Err(CompileError::GeneratorError(_)) => Stage::Generator,
+        };
+        // raw, second time: same answer
+        match mc_core::catch(|| compile_any_manifest(text, kind_of(k), net, blobs())) {
+            Ok(r2) => {
+                if r2 != raw {
+                    record(l, "nondeterministic:raw".to_string(), format!("two compilations differ: {:?} vs {:?}", raw, r2), case("(raw)"));
+                }
+            }
+            Err(p) => record(l, panic_key(), format!("compile_any_manifest panicked on the 2nd call only: {p}"), case("(raw)")),
+        }
+        for (si, style) in STYLES.iter().enumerate() {
+            let r1 = mc_core::catch(|| compile_any_manifest_with_pretty_error(text, kind_of(k), net, blobs(), *style));
+            let r1 = match r1 {
+                Ok(r) => r,
+                Err(p) => {
+                    let stage = format!("{:?}", out[k]);
+                    record(l, panic_key(), format!("compile_any_manifest_with_pretty_error panicked ({stage} error being rendered): {p}"), case(STYLE_NAMES[si]));
+                    out[k] = Stage::Panicked;
+                    continue;
+                }
+            };
+            match (&raw, &r1) {
+                (Ok(a), Ok(b)) if a == b => {}
+                (Err(_), Err(_)) => {}
+                _ => record(l, "raw-vs-pretty".to_string(), "raw and pretty entry points disagree on the outcome".to_string(), case(STYLE_NAMES[si])),
+            }
+            match mc_core::catch(|| compile_any_manifest_with_pretty_error(text, kind_of(k), net, blobs(), *style)) {
+                Ok(r2) => {
+                    if r2 != r1 {
+                        record(l, "nondeterministic:pretty".to_string(), format!("two answers differ: {:?} vs {:?}", r1, r2), case(STYLE_NAMES[si]));
+                    }
+                }
+                Err(p) => record(l, panic_key(), format!("pretty compile panicked on the 2nd call only: {p}"), case(STYLE_NAMES[si])),
+            }
+        }
+    }
+    // classes: per input for the kind-independent stages, per (input, kind) after parsing
+    match out[0] {
+        Stage::Lexer => l.class("input:lexer-error"),
+        Stage::Parser => l.class("input:parser-error"),
+        Stage::Panicked => l.class("input:panicked"),
+        _ => l.class("input:parsed"),
+    }
+    for k in 0..4 {
+        match out[k] {
+            Stage::Generator => l.class(&format!("{}:generator-error", KIND_NAMES[k])),
+            Stage::Ok => l.class(&format!("{}:compiled", KIND_NAMES[k])),
+            _ => {}
+        }
+    }
+    out
+}
+
+// ---------------------------------------------------------------------------------------------------------------
+// spaces
+// ---------------------------------------------------------------------------------------------------------------
+
+pub const TOKENS: [&str; 34] = [
+    // instructions
+    "DROP_ALL_PROOFS",
+    "CALL_METHOD",
+    "TAKE_ALL_FROM_WORKTOP",
+    "RETURN_TO_WORKTOP",
+    "YIELD_TO_PARENT",
+    "USE_CHILD",
+    // value constructors
+    "Address(",
+    "Bucket(",
+    "Proof(",
+    "Decimal(",
+    "Enum<",
+    "Array<",
+    "Map<",
+    "Tuple(",
+    "Bytes(",
+    "NonFungibleLocalId(",
+    "Expression(",
+    // literals
+    "\"a\"",
+    "\"\"",
+    "\"é😀\"",
+    "1u8",
+    "-1i8",
+    "true",
+    "300u8",
+    "U8",
+    // punctuation
+    "(",
+    ")",
+    "<",
+    ">",
+    ",",
+    ";",
+    "=>",
+    // comments
+    "#",
+    "# é",
+];
+pub const SEPS: [&str; 4] = [" ", "\n", "\r\n", "\r"];
+
+fn space_a(ctx: &Ctx, max_len: u32, trailing_upto: u32) -> u64 {
+    let n = gen::count_upto(TOKENS.len() as u64, max_len);
+    let idx: Vec<usize> = (0..TOKENS.len()).collect();
+    let net = NetworkDefinition::simulator();
+    par_range(ctx, n, 512, |i, l| {
+        let mut seq = vec![];
+        gen::nth_string(&idx, i, &mut seq);
+        let nsep = if seq.len() <= 1 { 1 } else { SEPS.len() };
+        for s in 0..nsep {
+            let toks: Vec<&str> = seq.iter().map(|t| TOKENS[*t]).collect();
+            let text = toks.join(SEPS[s]);
+            probe(&text, "a:tokens", l, &net);
+            if i % 100_003 == 7 && s == 2 {
+                l.sample(|| json!({"space": "a", "text": text}));
+            }
+        }
+        if !seq.is_empty() && seq.len() as u32 <= trailing_upto {
+            // same with a trailing separator (end-of-file positions on a fresh line)
+            for s in 1..SEPS.len() {
+                let toks: Vec<&str> = seq.iter().map(|t| TOKENS[*t]).collect();
+                let mut text = toks.join(SEPS[s]);
+                text.push_str(SEPS[s]);
+                probe(&text, "a:tokens+trailing", l, &net);
+            }
+        }
+    });
+    n
+}
+
+pub const CHARS_QUICK: [char; 12] = ['A', '"', '\\', '(', ';', '#', '\n', '\r', 'é', '😀', '\0', '\t'];
+pub const CHARS_THOROUGH: [char; 16] = ['A', '"', '\\', '(', ';', '#', '\n', '\r', 'é', '😀', '\0', '\t', 'u', '1', '-', '='];
+
+fn space_b(ctx: &Ctx, alphabet: &[char], max_len: u32) -> u64 {
+    let n = gen::count_upto(alphabet.len() as u64, max_len);
+    let net = NetworkDefinition::simulator();
+    par_range(ctx, n, 2048, |i, l| {
+        let mut cs = vec![];
+        gen::nth_string(alphabet, i, &mut cs);
+        let text: String = cs.iter().collect();
+        probe(&text, "b:chars", l, &net);
+        if i % 50_021 == 11 {
+            l.sample(|| json!({"space": "b", "text": text}));
+        }
+    });
+    n
+}
+
+fn xrd() -> String {
+    AddressBech32Encoder::for_simulator().encode(XRD.as_node_id().as_bytes()).unwrap()
+}
+fn faucet() -> String {
+    AddressBech32Encoder::for_simulator().encode(FAUCET.as_node_id().as_bytes()).unwrap()
+}
+fn package() -> String {
+    AddressBech32Encoder::for_simulator().encode(FAUCET_PACKAGE.as_node_id().as_bytes()).unwrap()
+}
+fn vault() -> String {
+    let mut raw = [7u8; 30];
+    raw[0] = EntityType::InternalFungibleVault as u8;
+    AddressBech32Encoder::for_simulator().encode(&raw).unwrap()
+}
+
+pub fn nest(open: &str, close: &str, leaf: &str, depth: usize, closed: bool) -> String {
+    let mut s = String::new();
+    for _ in 0..depth {
+        s.push_str(open);
+    }
+    s.push_str(leaf);
+    if closed {
+        for _ in 0..depth {
+            s.push_str(close);
+        }
+    }
+    s
+}
+
+/// Error-producing snippets (each is placed on "its own" lines; `\n` inside a snippet is replaced by the line
+/// ending under test, so multi-line error spans are covered too).
+fn error_snippets() -> Vec<(&'static str, String)> {
+    let f = faucet();
+    let x = xrd();
+    vec![
+        ("parser:not-an-instruction", "FOO;".to_string()),
+        ("parser:missing-semicolon", "DROP_ALL_PROOFS".to_string()),
+        ("parser:bad-argument", format!("CALL_METHOD Address(\"{f}\") \"f\" );")),
+        ("parser:number-of-values-empty", format!("CALL_METHOD Address(\"{f}\") \"f\" Some();")),
+        ("parser:number-of-values-multiline", format!("CALL_METHOD Address(\"{f}\") \"f\" Some(\n1u8,\n\"é\"\n);")),
+        ("parser:number-of-types", format!("CALL_METHOD Address(\"{f}\") \"f\" Map<U8>();")),
+        ("parser:unknown-discriminator", format!("CALL_METHOD Address(\"{f}\") \"f\" Enum<Foo::Bar>();")),
+        ("parser:max-depth", format!("CALL_METHOD Address(\"{f}\") \"f\" {};", nest("Tuple(", ")", "", 25, true))),
+        ("parser:unclosed-deep", format!("CALL_METHOD Address(\"{f}\") \"f\" {}", nest("Tuple(", ")", "", 25, false))),
+        ("lexer:unterminated-string", "CALL_METHOD \"unterminated é".to_string()),
+        ("lexer:unterminated-bytes", "CALL_METHOD Bytes(\"00".to_string()),
+        ("lexer:integer-range", "CALL_METHOD 300u8;".to_string()),
+        ("lexer:integer-type", "CALL_METHOD 1u7;".to_string()),
+        ("lexer:bad-escape", "CALL_METHOD \"é\\q\";".to_string()),
+        ("lexer:missing-surrogate", "CALL_METHOD \"\\uD800\";".to_string()),
+        ("lexer:bad-unicode", "CALL_METHOD \"\\uDC00\\u0000\";".to_string()),
+        ("lexer:unexpected-non-ascii", "CALL_METHOD é;".to_string()),
+        ("lexer:lone-equals", "CALL_METHOD = ;".to_string()),
+        ("generator:bad-address", "CALL_METHOD Address(\"bad😀\") \"f\";".to_string()),
+        ("generator:bad-decimal", format!("CALL_METHOD Address(\"{f}\") \"f\" Decimal(\"1.2.3\");")),
+        ("generator:bad-local-id", format!("CALL_METHOD Address(\"{f}\") \"f\" NonFungibleLocalId(\"é\");")),
+        ("generator:bad-expression", format!("CALL_METHOD Address(\"{f}\") \"f\" Expression(\"é\");")),
+        ("generator:bad-hex", format!("CALL_METHOD Address(\"{f}\") \"f\" Bytes(\"zz\");")),
+        ("generator:bad-blob-hash", format!("CALL_METHOD Address(\"{f}\") \"f\" Blob(\"00\");")),
+        ("generator:blob-not-found", format!("CALL_METHOD Address(\"{f}\") \"f\" Blob(\"{}\");", "00".repeat(32))),
+        ("generator:undefined-bucket", "RETURN_TO_WORKTOP Bucket(\"nope é\");".to_string()),
+        ("generator:bucket-id-not-found", "RETURN_TO_WORKTOP Bucket(5u32);".to_string()),
+        ("generator:name-redefined", format!("TAKE_ALL_FROM_WORKTOP Address(\"{x}\") Bucket(\"b\");\nTAKE_ALL_FROM_WORKTOP Address(\"{x}\") Bucket(\"b\");")),
+        ("generator:wrong-type-multiline", format!("TAKE_ALL_FROM_WORKTOP\n  Address(\"{x}\")\n  Tuple(\n 1u8\n)\n;")),
+        ("generator:kind-specific-multiline", "YIELD_TO_PARENT\n  \"é\"\n;".to_string()),
+        ("generator:bad-subintent-hash", "USE_CHILD NamedIntent(\"c\") Intent(\"bad\");".to_string()),
+        ("generator:header-not-first", "DROP_ALL_PROOFS;\nUSE_CHILD NamedIntent(\"c\") Intent(\"bad\");".to_string()),
+        ("generator:typed-args", "CREATE_ACCOUNT_ADVANCED 1u8;".to_string()),
+    ]
+}
+
+const PREAMBLE_LINES: [&str; 4] = ["DROP_ALL_PROOFS;", "", "# é😀 comment", "DROP_ALL_PROOFS; # é"];
+/// line-ending styles: LF, CRLF, CR, mixed (cycles LF, CRLF, CR)
+fn eol(style: usize, line_no: usize) -> &'static str {
+    match style {
+        0 => "\n",
+        1 => "\r\n",
+        2 => "\r",
+        _ => ["\n", "\r\n", "\r"][line_no % 3],
+    }
+}
+const EOL_NAMES: [&str; 4] = ["LF", "CRLF", "CR", "mixed"];
+
+struct PlacementCase {
+    label: String,
+    text: String,
+}
+
+fn space_c_cases(thorough: bool) -> Vec<PlacementCase> {
+    let mut out = vec![];
+    let snippets = error_snippets();
+    let trailing_options: &[usize] = if thorough { &[0, 1, 3, 7] } else { &[0, 1, 7] };
+    for (name, snip) in &snippets {
+        for n in 0..=12usize {
+            for style in 0..4 {
+                for (pi, pl) in PREAMBLE_LINES.iter().enumerate() {
+                    for placement in 0..3 {
+                        for &trailing in trailing_options {
+                            for final_eol in [false, true] {
+                                let mut t = String::new();
+                                let mut line = 0;
+                                for _ in 0..n {
+                                    t.push_str(pl);
+                                    t.push_str(eol(style, line));
+                                    line += 1;
+                                }
+                                // placement 0: at start of line; 1: after a valid instruction on the same line;
+                                // 2: indented by non-ASCII-free whitespace (tabs)
+                                match placement {
+                                    1 => t.push_str("DROP_ALL_PROOFS; "),
+                                    2 => t.push_str("\t\t"),
+                                    _ => {}
+                                }
+                                for (j, part) in snip.split('\n').enumerate() {
+                                    if j > 0 {
+                                        t.push_str(eol(style, line));
+                                        line += 1;
+                                    }
+                                    t.push_str(part);
+                                }
+                                for _ in 0..trailing {
+                                    t.push_str(eol(style, line));
+                                    line += 1;
+                                    t.push_str(pl);
+                                }
+                                if final_eol {
+                                    t.push_str(eol(style, line));
+                                }
+                                out.push(PlacementCase {
+                                    label: format!("{name}|preamble={n}x{pi}|eol={}|placement={placement}|trailing={trailing}|final_eol={final_eol}", EOL_NAMES[style]),
+                                    text: t,
+                                });
+                            }
+                        }
+                    }
+                }
+            }
+        }
+    }
+    out
+}
+
+fn example_files() -> Vec<(String, String)> {
+    fn walk(dir: &std::path::Path, out: &mut Vec<(String, String)>) {
+        let mut entries: Vec<_> = std::fs::read_dir(dir).map(|r| r.flatten().collect()).unwrap_or_default();
+        entries.sort_by_key(|e| e.path());
+        for e in entries {
+            let p = e.path();
+            if p.is_dir() {
+                walk(&p, out);
+            } else if p.extension().map(|x| x == "rtm").unwrap_or(false) {
+                if let Ok(s) = std::fs::read_to_string(&p) {
+                    out.push((p.display().to_string(), s));
+                }
+            }
+        }
+    }
+    let mut out = vec![];
+    let dir = std::path::PathBuf::from(radix_transactions_dir()).join("examples");
+    walk(&dir, &mut out);
+    out
+}
+
+/// Directory of the radix-transactions crate this binary was built against: the path dependency recorded in the
+/// harness workspace manifest (rewritten by tools_mutant.sh for scratch worktrees).
+fn radix_transactions_dir() -> String {
+    let manifest = std::fs::read_to_string(std::path::Path::new(env!("CARGO_MANIFEST_DIR")).join("../Cargo.toml")).unwrap_or_default();
+    for line in manifest.lines() {
+        if line.trim_start().starts_with("radix-transactions") {
+            if let Some(i) = line.find("path = \"") {
+                let rest = &line[i + 8..];
+                if let Some(j) = rest.find('"') {
+                    return rest[..j].to_string();
+                }
+            }
+        }
+    }
+    "/repo/radix-transactions".to_string()
+}
+
+fn substitute_placeholders(s: &str) -> String {
+    s.replace("${vault_address}", &vault()).replace("${package_address}", &package()).replace("${xrd}", &xrd())
+}
+
+fn char_mutations(base: &str, alphabet: &[char], mut f: impl FnMut(String)) {
+    let cs: Vec<char> = base.chars().collect();
+    for i in 0..cs.len() {
+        for &a in alphabet {
+            if a != cs[i] {
+                let mut v = cs.clone();
+                v[i] = a;
+                f(v.iter().collect());
+            }
+        }
+        let mut v = cs.clone();
+        v.remove(i);
+        f(v.iter().collect());
+        let mut v = cs.clone();
+        v.insert(i, cs[i]);
+        f(v.iter().collect());
+        for &a in alphabet {
+            let mut v = cs.clone();
+            v.insert(i, a);
+            f(v.iter().collect());
+        }
+    }
+    for l in 0..cs.len() {
+        f(cs[..l].iter().collect());
+    }
+    for &a in alphabet {
+        let mut v = cs.clone();
+        v.push(a);
+        f(v.iter().collect());
+    }
+}
+
+fn space_d_cases(thorough: bool) -> (Vec<PlacementCase>, usize) {
+    let mut out = vec![];
+    let mut files = example_files();
+    let n_files = files.len();
+    // (d1) mutations of the three smallest examples (placeholders substituted so that the base compiles)
+    let mut by_size = files.clone();
+    by_size.sort_by_key(|(p, s)| (s.len(), p.clone()));
+    let quick_alpha: Vec<char> = vec!['"', '\\', '(', ')', '<', '>', ',', ';', '#', '\n', '\r', ' ', 'é', '😀', '0', 'A', '=', '\0', '-', ':'];
+    let thorough_alpha: Vec<char> = (0u8..128).map(|b| b as char).chain(['é', '😀', '\u{2028}', '\u{feff}', '\u{85}']).collect();
+    let alpha = if thorough { &thorough_alpha } else { &quick_alpha };
+    for (path, src) in by_size.iter().take(3) {
+        let base = substitute_placeholders(src);
+        let name = path.rsplit("examples/").next().unwrap_or(path).to_string();
+        out.push(PlacementCase { label: format!("d1:{name}:unmutated"), text: base.clone() });
+        let mut k = 0usize;
+        char_mutations(&base, alpha, |t| {
+            out.push(PlacementCase { label: format!("d1:{name}:mutation#{k}"), text: t });
+            k += 1;
+        });
+    }
+    // (d2) every example under every line-ending style, with an error token injected at the start of every line
+    for (path, src) in files.drain(..) {
+        let name = path.rsplit("examples/").next().unwrap_or(&path).to_string();
+        let lines: Vec<&str> = src.lines().collect();
+        for style in 0..4 {
+            for inject_at in 0..=lines.len() {
+                for inj in ["FOO ", "\"é"] {
+                    let mut t = String::new();
+                    for (i, ln) in lines.iter().enumerate() {
+                        if i == inject_at {
+                            t.push_str(inj);
+                        }
+                        t.push_str(ln);
+                        t.push_str(eol(style, i));
+                    }
+                    if inject_at == lines.len() {
+                        t.push_str(inj);
+                    }
+                    out.push(PlacementCase { label: format!("d2:{name}:eol={}:inject@{inject_at}:{}", EOL_NAMES[style], inj.trim()), text: t });
+                }
+            }
+        }
+    }
+    (out, n_files)
+}
+
+// ---------------------------------------------------------------------------------------------------------------
+// (e) deep nesting / long inputs: child process
+// ---------------------------------------------------------------------------------------------------------------
+
+fn deep_cases(thorough: bool) -> Vec<(String, String)> {
+    let f = faucet();
+    let mut out = vec![];
+    let constructs: [(&str, &str, &str, &str); 7] = [
+        ("Tuple", "Tuple(", ")", ""),
+        ("Array", "Array<Array>(", ")", ""),
+        ("Enum", "Enum<0u8>(", ")", ""),
+        ("Some", "Some(", ")", "1u8"),
+        ("Map", "Map<U8, Map>(1u8 => ", ")", "1u8"),
+        ("Paren", "(", ")", ""),
+        ("Generic", "Array<", ">", "U8"),
+    ];
+    for (name, open, close, leaf) in constructs {
+        let depths: &[usize] = if thorough { &[1, 10, 19, 20, 21, 22, 23, 24, 25, 26, 64, 100, 1_000, 10_000, 100_000] } else { &[1, 19, 20, 21, 22, 25, 100, 10_000] };
+        for &depth in depths {
+            for closed in [true, false] {
+                let v = nest(open, close, leaf, depth, closed);
+                out.push((format!("{name}:depth={depth}:closed={closed}"), format!("CALL_METHOD Address(\"{f}\") \"f\" {v};")));
+            }
+        }
+    }
+    // long flat inputs
+    let n = if thorough { 100_000 } else { 10_000 };
+    out.push(("long:many-instructions+error".into(), format!("{}FOO;", "DROP_ALL_PROOFS;\n".repeat(n))));
+    out.push(("long:big-string".into(), format!("CALL_METHOD Address(\"{f}\") \"f\" \"{}\" 300u8;", "é".repeat(5 * n))));
+    out.push(("long:many-args".into(), format!("CALL_METHOD Address(\"{f}\") \"f\" {} );", "1u8 ".repeat(n))));
+    out.push(("long:many-tuple-elements".into(), format!("CALL_METHOD Address(\"{f}\") \"f\" Tuple({}) 1u7;", "1u8,".repeat(n))));
+    out
+}
+
+const CHILD_STACK: usize = 2 * 1024 * 1024;
+
+/// Child mode: run the deep cases on a 2 MiB-stack thread, print BEGIN/END lines (flushed) so that the parent
+/// can tell which case killed the process. `MC_TX_C31_CHILD=<i>` runs only case i, `=all` runs all;
+/// `MC_TX_C31_CHILD_FROM=<n>` skips the first n cases (resume after a crash).
+fn child_main() -> ! {
+    use std::io::Write;
+    let cases = deep_cases(std::env::var("MC_TX_C31_CHILD_TIER").map(|t| t == "thorough").unwrap_or(false));
+    let only: Option<usize> = std::env::var(CHILD_ENV).ok().and_then(|s| s.parse().ok());
+    let from: usize = std::env::var("MC_TX_C31_CHILD_FROM").ok().and_then(|s| s.parse().ok()).unwrap_or(0);
+    let h = std::thread::Builder::new()
+        .stack_size(CHILD_STACK)
+        .spawn(move || {
+            let net = NetworkDefinition::simulator();
+            for (i, (label, text)) in cases.iter().enumerate().skip(from) {
+                if only.map(|o| o != i).unwrap_or(false) {
+                    continue;
+                }
+                println!("BEGIN {i} {label}");
+                std::io::stdout().flush().ok();
+                let mut l = Local::new();
+                let st = probe(text, "e:deep", &mut l, &net);
+                let found = std::mem::take(&mut *MINIMAL.lock().unwrap());
+                let v: Vec<String> = found.iter().map(|(k, v)| format!("{}\t{}", k, v.2.replace('\n', " "))).collect();
+                println!("END {i} {:?} violations={}", st, v.len());
+                for x in v.iter().take(3) {
+                    println!("VIOL {i} {x}");
+                }
+                std::io::stdout().flush().ok();
+            }
+        })
+        .expect("spawn");
+    let ok = h.join().is_ok();
+    std::process::exit(if ok { 0 } else { 3 })
+}
+
+fn space_e(ctx: &Ctx) -> u64 {
+    let cases = deep_cases(!ctx.quick());
+    let exe = std::env::current_exe().unwrap_or_else(|e| mc_core::machinery_error(&format!("current_exe: {e}")));
+    let mut l = Local::new();
+    let mut start = 0usize;
+    let mut done = 0u64;
+    // the child runs all cases from `start`; if it dies, the case that killed it is recorded and the run resumes after it
+    while start < cases.len() {
+        let out = std::process::Command::new(&exe)
+            .args(["C31", "quick"])
+            .env(CHILD_ENV, "all")
+            .env("MC_TX_C31_CHILD_FROM", start.to_string())
+            .env("MC_TX_C31_CHILD_TIER", if ctx.quick() { "quick" } else { "thorough" })
+            .env("VERIF_ROOT", ctx.root.display().to_string())
+            .output()
+            .unwrap_or_else(|e| mc_core::machinery_error(&format!("cannot spawn child: {e}")));
+        let stdout = String::from_utf8_lossy(&out.stdout).to_string();
+        let mut open: Option<usize> = None;
+        let mut last_end: Option<usize> = None;
+        for line in stdout.lines() {
+            let mut it = line.splitn(3, ' ');
+            match it.next() {
+                Some("BEGIN") => open = it.next().and_then(|x| x.parse().ok()),
+                Some("END") => {
+                    let i: usize = it.next().and_then(|x| x.parse().ok()).unwrap_or(0);
+                    let rest = it.next().unwrap_or("");
+                    open = None;
+                    last_end = Some(i);
+                    done += 1;
+                    l.evals += 4;
+                    let stage = rest.split(' ').next().unwrap_or("");
+                    let cls = if rest.contains("Ok") {
+                        "deep:compiled"
+                    } else if rest.contains("Parser") {
+                        "deep:parser-error"
+                    } else if rest.contains("Lexer") {
+                        "deep:lexer-error"
+                    } else if rest.contains("Generator") {
+                        "deep:generator-error"
+                    } else {
+                        "deep:panicked"
+                    };
+                    let _ = stage;
+                    l.class(cls);
+                }
+                Some("VIOL") => {
+                    let i: usize = it.next().and_then(|x| x.parse().ok()).unwrap_or(0);
+                    let rest = it.next().unwrap_or("");
+                    let mut kv = rest.splitn(2, '\t');
+                    let key = kv.next().unwrap_or("panic:?").to_string();
+                    let what = kv.next().unwrap_or("").to_string();
+                    l.violation(key, format!("[child] {} :: {what}", cases[i].0), json!({"space": "e:deep", "deep_case": cases[i].0, "deep_index": i, "tier": if ctx.quick() { "quick" } else { "thorough" }}));
+                }
+                _ => {}
+            }
+        }
+        if out.status.success() {
+            break;
+        }
+        // child died
+        match open {
+            Some(i) => {
+                let construct = cases[i].0.split(':').next().unwrap_or("?");
+                l.violation(
+                    format!("crash:{construct}"),
+                    format!("the compiler killed the process (status {:?}, stack overflow / abort) on deep case {} ({} bytes of input) on a {} KiB stack", out.status, cases[i].0, cases[i].1.len(), CHILD_STACK / 1024),
+                    json!({"space": "e:deep", "deep_case": cases[i].0, "deep_index": i, "tier": if ctx.quick() { "quick" } else { "thorough" }}),
+                );
+                l.class("deep:process-killed");
+                start = i + 1;
+            }
+            None => {
+                let _ = last_end;
+                mc_core::machinery_error(&format!("C31 child died outside a case (status {:?}); stderr: {}", out.status, String::from_utf8_lossy(&out.stderr)));
+            }
+        }
+    }
+    ctx.merge(l);
+    done
+}
+
+// ---------------------------------------------------------------------------------------------------------------
+
+pub fn run(ctx: Ctx) -> ! {
+    if std::env::var(CHILD_ENV).is_ok() {
+        child_main();
+    }
+    let net = NetworkDefinition::simulator();
+    if let Some(case) = ctx.read_replay_case() {
+        let mut l = Local::new();
+        if let Some(text) = case.get("text").and_then(|t| t.as_str()) {
+            println!("replaying text ({} bytes): {:?}", text.len(), text);
+            let st = probe(text, "replay", &mut l, &net);
+            println!("stages per kind: {:?}", st);
+        } else if let Some(i) = case.get("deep_index").and_then(|t| t.as_u64()) {
+            println!("replaying deep case #{i} in a child process");
+            let exe = std::env::current_exe().unwrap();
+            let tier = case.get("tier").and_then(|t| t.as_str()).unwrap_or("quick").to_string();
+            let out = std::process::Command::new(&exe).args(["C31", "quick"]).env(CHILD_ENV, i.to_string()).env("MC_TX_C31_CHILD_TIER", tier).output().unwrap();
+            println!("child status {:?}\n{}", out.status, String::from_utf8_lossy(&out.stdout));
+            if !out.status.success() {
+                l.violation("crash:replay", "child died", case.clone());
+            }
+        }
+        for (k, v) in MINIMAL.lock().unwrap().iter() {
+            println!("observed: {} :: {}", k, v.2);
+        }
+        ctx.merge(l);
+        flush_minimal(&ctx);
+        ctx.finish(Level::Exploration, "replay", 0, false, Map::new(), &[]);
+    }
+
+    let thorough = !ctx.quick();
+    let mut cov = Map::new();
+
+    // (a)
+    let a_len = ctx.pick(3, 4);
+    let a_trailing = ctx.pick(2, 3);
+    let n_a = space_a(&ctx, a_len, a_trailing);
+    cov.insert("a_token_sequences".into(), json!({"alphabet": TOKENS.len(), "max_len": a_len, "sequences": n_a, "separators": SEPS.len(), "with_trailing_separator_upto_len": a_trailing}));
+    eprintln!("[C31] (a) done at {:.1}s", ctx.elapsed_s());
+
+    // (b)
+    let (b_alpha, b_len): (&[char], u32) = if thorough { (&CHARS_THOROUGH, 5) } else { (&CHARS_QUICK, 5) };
+    let n_b = space_b(&ctx, b_alpha, b_len);
+    cov.insert("b_char_strings".into(), json!({"alphabet": b_alpha.len(), "max_len": b_len, "strings": n_b}));
+    eprintln!("[C31] (b) done at {:.1}s", ctx.elapsed_s());
+
+    // (c)
+    let c_cases = space_c_cases(thorough);
+    par_for(&ctx, &c_cases, |c, l| {
+        probe(&c.text, &format!("c:error-placement:{}", c.label), l, &net);
+    });
+    cov.insert("c_error_placements".into(), json!({"snippets": error_snippets().len(), "preamble_lines": "0..=12", "eol_styles": EOL_NAMES, "cases": c_cases.len()}));
+    ctx.sample(json!({"space": "c", "label": c_cases[c_cases.len() / 3].label, "text": c_cases[c_cases.len() / 3].text}));
+    eprintln!("[C31] (c) done at {:.1}s", ctx.elapsed_s());
+
+    // (d)
+    let (d_cases, n_files) = space_d_cases(thorough);
+    if n_files == 0 {
+        mc_core::machinery_error("C31: no example manifests found");
+    }
+    par_for(&ctx, &d_cases, |c, l| {
+        probe(&c.text, &format!("d:examples:{}", c.label), l, &net);
+    });
+    cov.insert("d_example_mutations".into(), json!({"example_files": n_files, "cases": d_cases.len()}));
+    eprintln!("[C31] (d) done at {:.1}s", ctx.elapsed_s());
+
+    // (e)
+    let n_e = space_e(&ctx);
+    cov.insert("e_deep_cases_in_child_process".into(), json!({"cases": n_e, "child_stack_bytes": CHILD_STACK, "parser_max_depth": radix_transactions::manifest::parser::PARSER_MAX_DEPTH}));
+    eprintln!("[C31] (e) done at {:.1}s", ctx.elapsed_s());
+
+    flush_minimal(&ctx);
+    let classes = ctx.classes();
+    let nontrivial = classes.get("input:parser-error").copied().unwrap_or(0) + classes.get("input:parsed").copied().unwrap_or(0);
+    ctx.finish(
+        Level::Exploration,
+        "a case = one input text compiled as each of the 4 manifest kinds via compile_any_manifest (x2) and compile_any_manifest_with_pretty_error (2 styles x2); evaluations count (text, kind) pairs; non-trivial = input texts (distinct within each space) that got past the lexer (reached the parser or further)",
+        nontrivial,
+        true,
+        cov,
+        &[
+            "blob provider holds one known blob; network = simulator",
+            "stack-overflow detection assumes a 2 MiB thread stack (Rust's default for spawned threads)",
+        ],
+    )
 }
